@@ -55,6 +55,8 @@ def gen_case(rng, thorough):
     pool = list(dict.fromkeys(pool))[:nd]
     seq = pool[:]
     rng.shuffle(seq)
+    if kind in ('str', 'long-str') and rng.random() < 0.25:      # the empty string as the very first value of a fresh sketch
+        seq = [''] + [v for v in seq if v != '']
     # duplicates sprinkled in, with emphasis on the boundary position
     out = []
     seen = []
